@@ -6,6 +6,8 @@ import Cirbo.Proofs.GenSquare
 import Cirbo.Proofs.GenWallace
 import Cirbo.Proofs.GenMulWidth
 import Cirbo.Proofs.GenWallaceWidth
+import Cirbo.Proofs.GenTotalC08
+import Cirbo.Proofs.GenReturns
 /-!
 # C08 — Multiplier and squarer generators compute exact products
 
@@ -24,7 +26,8 @@ import Cirbo.Proofs.GenWallaceWidth
 -- OBLIGATION: c08_mul_wallace
 -- OBLIGATION: c08_mul_default_width
 -- OBLIGATION: c08_mul_wallace_width
--- PARTIAL: proved: the frame theorem for every mode (all are Prog programs), the partial-product matrix (sum_i 2^i*row_i = a*b), add_mul_alter = a*b exactly (positional), add_mul (DEFAULT) = a*b exactly (positional: on gapless weights the weighted sum returns the levels 0,1,2,... in order); and its result width n+m (n+m-1 when one operand has one bit) — c08_mul_default_width: the XAIG weighted loop outputs exactly the levels its level profile predicts (Proofs/GenShape.lean, exact per-level shape from the cost analysis) and for the partial-product profile the carries stay between 1 and the previous level's height (Proofs/GenMulWidth.lean); add_mul_dadda = a*b exactly with its result width (all reduction stages, any operand widths, both endiannesses). both Karatsuba variants (add_mul_karatsuba_with_efficient_sum = MulMode.KARATSUBA, and add_mul_karatsuba over add_mul_pow2_m1) = a*b exactly with their result width, by induction over the recursion (every threshold, operands of different widths, zero padding, the subtraction never borrows); add_mul_pow2_m1 = a*b exactly with its width (column-loop invariant over add_sum_pow2_m1, anti-diagonal re-summation of the partial-product matrix). both squarers (add_square_pow2_m1: the AND triangle built by the nested loops, the square as a sum over anti-diagonals; add_square: induction over the recursive split x = a + 2^mid*b) = x^2 exactly on 2n bits. add_mul_wallace = a*b exactly (Proofs/GenWallace.lean: the matrix with placeholder strings stands for Σ 2^col·(non-placeholder bits); every round keeps that number modulo 2^(n+m) — per-cell accounting over groups of three rows, carries out of the top column dropped; the two remaining rows are read as numbers with the gap logic; every label a run draws is "new_…", hence different from the placeholder — a second semantics SemF carries this along the same path). The result widths of DEFAULT (c08_mul_default_width) and Wallace (c08_mul_wallace_width: a non-empty column stays non-empty through the rounds and ends in row 0; the final adder then returns >= n+m bits) are proved as well. What remains by correspondence only: that the generators return at all on valid arguments (the theorems are about every run that returns; the model fuel and the fresh-label loop are not shown sufficient).
+-- OBLIGATION: c08_generators_return
+-- PARTIAL: proved: the frame theorem for every mode (all are Prog programs), the partial-product matrix (sum_i 2^i*row_i = a*b), add_mul_alter = a*b exactly (positional), add_mul (DEFAULT) = a*b exactly (positional: on gapless weights the weighted sum returns the levels 0,1,2,... in order); and its result width n+m (n+m-1 when one operand has one bit) — c08_mul_default_width: the XAIG weighted loop outputs exactly the levels its level profile predicts (Proofs/GenShape.lean, exact per-level shape from the cost analysis) and for the partial-product profile the carries stay between 1 and the previous level's height (Proofs/GenMulWidth.lean); add_mul_dadda = a*b exactly with its result width (all reduction stages, any operand widths, both endiannesses). both Karatsuba variants (add_mul_karatsuba_with_efficient_sum = MulMode.KARATSUBA, and add_mul_karatsuba over add_mul_pow2_m1) = a*b exactly with their result width, by induction over the recursion (every threshold, operands of different widths, zero padding, the subtraction never borrows); add_mul_pow2_m1 = a*b exactly with its width (column-loop invariant over add_sum_pow2_m1, anti-diagonal re-summation of the partial-product matrix). both squarers (add_square_pow2_m1: the AND triangle built by the nested loops, the square as a sum over anti-diagonals; add_square: induction over the recursive split x = a + 2^mid*b) = x^2 exactly on 2n bits. add_mul_wallace = a*b exactly (Proofs/GenWallace.lean: the matrix with placeholder strings stands for Σ 2^col·(non-placeholder bits); every round keeps that number modulo 2^(n+m) — per-cell accounting over groups of three rows, carries out of the top column dropped; the two remaining rows are read as numbers with the gap logic; every label a run draws is "new_…", hence different from the placeholder — a second semantics SemF carries this along the same path). The result widths of DEFAULT (c08_mul_default_width) and Wallace (c08_mul_wallace_width: a non-empty column stays non-empty through the rounds and ends in row 0; the final adder then returns >= n+m bits) are proved as well. Totality is proved too (c08_generators_return, Proofs/GenTotalMul1/Mul2/Wallace/C08): on operands of width >= 1 that are gates of the host circuit every multiplier and squarer returns — the fuel of the Karatsuba recursion, of the Dadda stages and of the Wallace rounds suffices, no column that is read is empty, no label clashes — or stops because the 128-bit space of random labels is exhausted. What remains by correspondence only: the tie between the model programs and the Python generators.
 -/
 namespace Cirbo
 
@@ -208,5 +211,41 @@ theorem c08_mul_wallace_width {st st' : GSt} {x y out : List Label} {be : Bool}
 #print axioms c08_mul_wallace
 #print axioms c08_mul_default_width
 #print axioms c08_mul_wallace_width
+
+/-- **every multiplier and squarer returns on valid arguments** (operands of width ≥ 1 whose bits are gates of the
+host circuit, either endianness, any two widths) — or stops because the 128-bit space of random labels is
+exhausted.  With the result widths where the totality proofs carry them. -/
+theorem c08_generators_return (st : GSt) :
+    (∀ a b be, (∀ l ∈ a, l ∈ st.c.labels) → (∀ l ∈ b, l ∈ st.c.labels) → a ≠ [] → b ≠ [] →
+      Returns (addMul a b be) st (fun _ => True) ∧ Returns (addMulAlter a b be) st (fun r => r ≠ []) ∧
+      Returns (addMulPow2M1 a b be) st (fun r => r.length =
+        if a.length = 1 then b.length else if b.length = 1 then a.length else a.length + b.length) ∧
+      Returns (addMulKaratsuba a b be) st (fun r => r.length = a.length + b.length - (if a.length == 1 || b.length == 1 then 1 else 0)) ∧
+      Returns (addMulKaratsubaEff a b be) st (fun r => r.length = a.length + b.length - (if a.length == 1 || b.length == 1 then 1 else 0)) ∧
+      Returns (addMulDadda a b be) st (fun r => r.length =
+        if (a.length == 1 || b.length == 1) then a.length + b.length - 1 else a.length + b.length) ∧
+      Returns (addMulWallace a b be) st (fun r => r.length =
+        if a.length = 1 ∨ b.length = 1 then a.length + b.length - 1 else a.length + b.length)) ∧
+    (∀ x be, (∀ l ∈ x, l ∈ st.c.labels) → x ≠ [] →
+      Returns (addSquare x be) st (fun r => r ≠ []) ∧
+      Returns (addSquarePow2M1 x be) st (fun r => r.length = if x.length = 1 then 1 else 2 * x.length)) := by
+  have hinv := Inv.nil st
+  have hk := kn_labels st
+  constructor
+  · intro a b be ha hb hna hnb
+    have h1 : 1 ≤ a.length := List.length_pos_iff.mpr hna
+    have h2 : 1 ≤ b.length := List.length_pos_iff.mpr hnb
+    exact ⟨returns_of_ok (m1_ok_addMul (be := be) hinv hk ha hb hna hnb),
+      returns_of_ok (m1_ok_addMulAlter (be := be) hinv hk ha hb hna hnb),
+      returns_of_ok (m1_ok_addMulPow2M1 (be := be) hinv hk ha hb hna hnb),
+      returns_of_ok (ok_addMulKaratsuba (be := be) hinv hk ha hb (by omega)),
+      returns_of_ok (ok_addMulKaratsubaEff (be := be) hinv hk ha hb (by omega)),
+      returns_of_ok (ok_addMulDadda (be := be) hinv hk ha hb h1 h2),
+      returns_of_ok (m3_ok_addMulWallace (be := be) hinv hk ha hb h1 h2)⟩
+  · intro x be hx hne
+    exact ⟨returns_of_ok (ok_addSquare (be := be) hinv hk hx hne),
+      returns_of_ok (m1_ok_addSquarePow2M1 (be := be) hinv hk hx hne)⟩
+
+#print axioms c08_generators_return
 
 end Cirbo
